@@ -3,7 +3,7 @@ import numpy as np
 
 from ..oracles import landscape as OL
 from ..util import scale_of
-from .C03 import gen_bars, overlapping
+from .C03 import gen_bars, overlapping, far_or_tiny, tolerance
 
 ID = "C08"
 CASES = {"quick": 5000, "thorough": 800000}
@@ -13,7 +13,7 @@ REQUIRED = ["|grid value - true landscape| <= step/2 at every node and depth", "
             "transformer == PersLandscapeApprox values", "transformer flatten == values.flatten()",
             "death vector non-increasing permutation of deaths"]
 RULE = ("diagrams from the C03 generators (1-12 bars, grids with exact coincidences, floats, scales) sampled on grids with "
-        "num_steps 2..500: default grid [min birth, max death], wider grids, grids whose nodes hit / miss the endpoints, exact "
+        "num_steps 2..500, also far from the origin (offset 1e5-1e7 bar lengths) and at absolute scale 1e-9: default grid [min birth, max death], wider grids, grids whose nodes hit / miss the endpoints, exact "
         "half-step ties; hom_deg 0..2 with decoys. non-trivial = >=2 bars, >=1 endpoint off the grid and >=3 interior nodes; "
         "distinct = digest of (sorted bars, grid)")
 ASSUMPTIONS = ["true landscape from the definition (k-th largest tent) evaluated at linspace(start, stop, num_steps)",
@@ -71,12 +71,13 @@ def pick_grid(rng, bars):
 
 def run_case(ctx, k, rng):
     bars, style = gen_bars(rng)
+    bars, style = far_or_tiny(rng, bars, style)     # also far from the origin / at tiny absolute scale
     hom = int(rng.choice([0, 0, 1, 2]))
     dgms = [np.array([[0.0, 1.0], [0.5, 7.0]]) * (j + 1) for j in range(hom)] + [bars]
     start, stop, num, mode = pick_grid(rng, bars)
     ctx.begin(k, style + "/" + mode, {"bars": bars, "hom_deg": hom, "start": start, "stop": stop, "num_steps": num})
     sc = scale_of(bars)
-    tol = 1e-9 * sc
+    tol = tolerance(bars)       # 1e-9 of the longest bar + rounding of the coordinates (never 1e-9 of the coordinates)
     s0 = float(bars[:, 0].min()) if start is None else start
     s1 = float(bars[:, 1].max()) if stop is None else stop
     nodes, step = np.linspace(s0, s1, num, retstep=True)
@@ -113,6 +114,18 @@ def run_case(ctx, k, rng):
                 ctx.check("exact when endpoints lie on the grid", worst <= tol, worst_error=worst, step=step)
             ctx.check("grid parameters reported", A.num_steps == num and abs(A.start - s0) <= tol and abs(A.stop - s1) <= tol,
                       start=A.start, stop=A.stop)
+    if vals is not None and np.all(bars == np.round(bars)) and np.max(np.abs(bars)) < 2 ** 40 and rng.random() < 0.5:
+        # the same diagram as an integer array must give the same samples
+        try:
+            ctx.ran()
+            import io, contextlib
+            with contextlib.redirect_stdout(io.StringIO()):
+                Ai = PLA(start=start, stop=stop, num_steps=num, dgms=dgms[:hom] + [bars.astype(np.int64)] + dgms[hom + 1:], hom_deg=hom)
+            vi = depth_rows(Ai.values)
+            ctx.check("integer diagram == float diagram of the same values", vi.shape == vals.shape and np.allclose(vi, vals, rtol=0, atol=tol),
+                      int_shape=vi.shape, float_shape=vals.shape)
+        except Exception as e:
+            ctx.exception("integer diagram == float diagram of the same values", e)
     sub = int(rng.integers(0, 3))
     if sub == 0:
         # ---- exact -> grid sampling ---------------------------------------------------------------------------
